@@ -24,7 +24,9 @@ Inductive cstep :=
 | SWriteLast (tmp : bool)         (* the call that completes the data *)
 | SMeta (tmp : bool)              (* fchmod, xattr stripping, a second open for writing: nothing modelled changes *)
 | SRename                         (* working file over destination *)
-| SUtime.                         (* destination mtime := source mtime *)
+| SUtime                          (* destination mtime := source mtime *)
+| SUtimeT.                        (* working file mtime := source mtime (a destination with further hard links is replaced by a
+                                     complete copy made beside it: the time is set before the rename) *)
 
 Definition target (tmp : bool) (s : cstate) : cnode := if tmp then cs_temp s else cs_dest s.
 Definition set_target (tmp : bool) (s : cstate) (v : cnode) : cstate :=
@@ -55,6 +57,10 @@ Definition cstep_apply (e : sentry) (now : Z) (s : cstate) (st : cstep) : cstate
               | CFile c k sz _ => mk_cstate (CFile c k sz (se_mtime e)) (cs_temp s)
               | CAbsent => s
               end
+  | SUtimeT => match cs_temp s with
+               | CFile c k sz _ => mk_cstate (cs_dest s) (CFile c k sz (se_mtime e))
+               | CAbsent => s
+               end
   end.
 
 Definition crun (e : sentry) (now : Z) (p : list cstep) (s : cstate) : cstate := fold_left (cstep_apply e now) p s.
@@ -88,6 +94,7 @@ Definition inplace_class (e : sentry) (p : list cstep) : bool :=
 Fixpoint temp_tail (seen : bool) (l : list cstep) : bool :=
   match l with
   | SRename :: SUtime :: [] => seen
+  | SUtimeT :: SRename :: [] => seen
   | SWriteLast true :: tl => temp_tail true tl
   | SWrite true _ :: tl => temp_tail false tl
   | SSetLen true :: tl => temp_tail seen tl
